@@ -89,6 +89,9 @@ inductive LifeAct where
   /-- the client pipelines requests with large replies and does not read them: the server's write blocks; the client
   stays connected -/
   | flood (id : String)
+  /-- the client's request makes the application's handler panic: the server drops that connection (C07), and nothing
+  else changes - the other connections are served, Stop returns -/
+  | crash (id : String)
   /-- the client reads whatever is there until the connection ends (`down`) or nothing more comes (`up`) -/
   | drain (id : String)
   | tlsbad (kind : String) (id : String)    -- a faulty client on the TLS port
@@ -134,6 +137,7 @@ def lifeStepA (cfg : LifeCfg) (s : LifeSt) : LifeAct → String × LifeSt
   | .halfbulk id => ("ok", s.drop id)
   | .stallreq _ => ("ok", s)
   | .flood _ => ("ok", s)
+  | .crash id => (if s.has id then "down" else "gone", s.drop id)
   | .drain id => (if s.has id then "up" else "down", s)
   | .quit id => (if s.has id then "+OK/down" else "gone/down", s.drop id)
   | .bad id => ("down", s.drop id)
@@ -172,6 +176,7 @@ def parseLifeAct (action : String) : Option LifeAct :=
   | ["halfbulk", id] => some (.halfbulk id)
   | ["stallreq", id] => some (.stallreq id)
   | ["flood", id] => some (.flood id)
+  | ["crash", id] => some (.crash id)
   | ["drain", id] => some (.drain id)
   | ["quit", id] => some (.quit id)
   | ["bad", id] => some (.bad id)
